@@ -56,7 +56,7 @@ pub proof fn lemma_mod_split_unique(line: Seq<char>, e1: Seq<char>, k1: Seq<char
 }
 /// rule names are non-empty plain words
 pub open spec fn reg_wf(r: OpaqueRegistry) -> bool { forall|k: Seq<char>| #[trigger] reg_is_kind(r, k) ==> plain_word(k) && k.len() > 0 }
-pub open spec fn no_lf(s: Seq<char>) -> bool { forall|i: int| 0 <= i < s.len() ==> s[i] != '\n' }
+pub open spec fn no_lf_chars(s: Seq<char>) -> bool { forall|i: int| 0 <= i < s.len() ==> s[i] != '\n' }
 /// a final group whose kind is empty or a registered name
 pub open spec fn mod_split_reg(r: OpaqueRegistry, line: Seq<char>, e: Seq<char>, k: Seq<char>, q: Seq<char>) -> bool {
     mod_split(line, e, k, q) && (k.len() == 0 || reg_is_kind(r, k))
@@ -77,7 +77,7 @@ pub open spec fn caps_ok(r: OpaqueRegistry, line: Seq<char>, c: Seq<Seq<char>>) 
 }
 #[verifier::external_body]
 pub fn __expectation_captures<'a>(reg: &OpaqueRegistry, line: &'a str) -> (r: anyhow::Result<Vec<&'a str>>)
-    requires no_lf(line@), reg_wf(*reg),
+    requires no_lf_chars(line@), reg_wf(*reg),
     ensures r is Ok, caps_ok(*reg, line@, strs_view(r->Ok_0@)),
 { unimplemented!() }
 pub open spec fn equal_word() -> Seq<char> { seq!['e', 'q', 'u', 'a', 'l'] }
